@@ -19,7 +19,7 @@ RLIMIT = 80
 CANARY_RLIMIT = 20
 VERUS_EXTRA = []
 
-ALLOW_TRUSTED_RX = [r'^uninterp fn eval_ok_', r'^assume_specification (BTreeMap::<K,V,A>::entry|std::collections::btree_map::Entry::<\'a,K,V,A>::or_default)$', r'^external_body (fn|struct) ', r'^external_type_specification', r'^uninterp fn (view|wf|spec_len|rep)$',
+ALLOW_TRUSTED_RX = [r'^assume_specification core::option::Option::<T>::or_else', r'^assume_specification (BTreeMap::<K,V,A>::entry|std::collections::btree_map::Entry::<\'a,K,V,A>::or_default)$', r'^external_body (fn|struct) ', r'^external_type_specification', r'^uninterp fn (view|wf|spec_len|rep|ent_key|ent_old|ent_fin)$',
                     r'^accept_recursive_types', r'^global size_of']
 
 HEADER = '''#![feature(allocator_api)]
@@ -41,13 +41,25 @@ global size_of usize == 8;
 #[verifier::reject_recursive_types(A)]
 pub struct ExBTreeEntry<'a, K: 'a, V: 'a, A: std::alloc::Allocator + Clone>(std::collections::btree_map::Entry<'a, K, V, A>);
 
-pub assume_specification<'a, K: Ord, V, A: std::alloc::Allocator + Clone> [BTreeMap::<K, V, A>::entry] (m: &'a mut BTreeMap<K, V, A>, key: K) -> (e: std::collections::btree_map::Entry<'a, K, V, A>);
-pub assume_specification<'a, K: Ord, V: Default, A: std::alloc::Allocator + Clone> [std::collections::btree_map::Entry::<'a, K, V, A>::or_default] (e: std::collections::btree_map::Entry<'a, K, V, A>) -> (v: &'a mut V);
+// BTreeMap as a finite map (element index `<rel>_<type>_element_index: BTreeMap<u32, Vec<row>>`): `m.entry(k).or_default()` hands out the list
+// stored under k (an unspecified fresh list if there is none) and whatever is written through it becomes the value under k; no other key changes
+pub open spec fn bt_view<K, V, A: std::alloc::Allocator + Clone>(m: &BTreeMap<K, V, A>) -> Map<K, V> { m@ }      // vstd's view of BTreeMap
+pub uninterp spec fn ent_key<'a, K, V, A: std::alloc::Allocator + Clone>(e: &std::collections::btree_map::Entry<'a, K, V, A>) -> K;
+pub uninterp spec fn ent_old<'a, K, V, A: std::alloc::Allocator + Clone>(e: &std::collections::btree_map::Entry<'a, K, V, A>) -> Map<K, V>;
+pub uninterp spec fn ent_fin<'a, K, V, A: std::alloc::Allocator + Clone>(e: &std::collections::btree_map::Entry<'a, K, V, A>) -> Map<K, V>;
+pub assume_specification<'a, K: Ord, V, A: std::alloc::Allocator + Clone> [BTreeMap::<K, V, A>::entry] (m: &'a mut BTreeMap<K, V, A>, key: K) -> (e: std::collections::btree_map::Entry<'a, K, V, A>)
+    ensures ent_key(&e) == key, ent_old(&e) == bt_view(old(m)), ent_fin(&e) == bt_view(final(m));
+pub assume_specification<'a, K: Ord, V: Default, A: std::alloc::Allocator + Clone> [std::collections::btree_map::Entry::<'a, K, V, A>::or_default] (e: std::collections::btree_map::Entry<'a, K, V, A>) -> (v: &'a mut V)
+    ensures ent_old(&e).contains_key(ent_key(&e)) ==> *v == ent_old(&e)[ent_key(&e)],
+        ent_fin(&e) == ent_old(&e).insert(ent_key(&e), *final(v));
+// Option::or_else (evaluation functions): the alternative is only computed, and then returned, when the receiver is None
+pub assume_specification<T, F: FnOnce() -> Option<T>>[core::option::Option::<T>::or_else](o: Option<T>, f: F) -> (r: Option<T>)
+    requires o is None ==> f.requires(()),
+    ensures match o { Some(x) => r == o, None => f.ensures((), r) };
 '''
 
 DROPPED = ['rule functions and their Env structs (extern "Rust", loops over runtime iterators)', 'ModelDelta and its apply_* functions (drain)',
            'close, close_until, canonicalize, recompute_model_indices (generated loop code)', 'iter_* (iterator adapter chains)',
-           'the bodies of the evaluation functions `f(..) -> Option<_>` (closures with `?` over opaque iterators; declared by an assumed contract in part GEN-define)',
            'impl Display for the newtypes, `use` lines, weight constants are kept']
 
 
@@ -57,16 +69,20 @@ SAMPLES = [
     '<pred>(arg..) -> b: ensures b == t_<pred>().contains(tupN(root_spec(arg_0).0, ..))  (hence invariant under replacing an argument by an equal element)',
     'equate_<t>(l, r): ensures inv, rep\' merges exactly the classes of l and r (either orientation), i ~\' j <=> i ~ j \\/ (i ~ l /\\ r ~ j) \\/ (i ~ r /\\ l ~ j), loser pushed to uprooted, tables unchanged',
     'is_dirty() -> b: ensures b == (flag || some t_<rel>_new non-empty || some new type set non-empty || some uprooted list non-empty)',
+    '<func>(arg..) -> res: requires inv; ensures match res { Some(y) => y < n && t_<func>().contains(tupN(root(arg_0), .., y)), None => forall y. !t_<func>().contains(tupN(root(arg_0), .., y)) }',
+    'define_<func>(el..) -> res: existing value when defined (model unchanged), otherwise a fresh element with t_<func> extended by exactly that row',
+    'GENERATED inv also holds: t_<rel>_new and t_<rel>_old are disjoint (the new/old PARTITION); every row of t_<rel> is listed in <rel>_<type>_element_index under each of its components of that type',
     'move_new_to_old(): ensures inv, t_<rel>_old() =~= old.t_<rel>_old() u old.t_<rel>_new(), every new copy (all orders, all diagonal patterns, new type sets) empty, flag cleared, type sets / rep unchanged',
 ]
 
 ASSUMPTIONS = [
     'programs are sampled: the contracts are proved for the module emitted for each probe theory in /verif/probes, for all states, arguments and call histories',
     'runtime contracts: Unification (proved in unit UF) and PrefixTreeN::{new, insert, contains, remove, is_empty, clear} (proved in unit PT) are declared by the same contract text',
-    'derived Copy/Clone/PartialEq of the emitted newtypes are structural; BTreeMap::entry / Entry::or_default (element index) are unspecified',
-    'NOT covered: canonicalize, recompute_model_indices, close/close_until, the rule functions, iter_*; model-scoped (_own/_all) indices',
+    'derived Copy/Clone/PartialEq of the emitted newtypes are structural',
+    'BTreeMap (element index) is a finite map: the view vstd gives BTreeMap plus assumed specifications of entry(k).or_default() (hands out the list under k, or an unspecified fresh one; what is written through it becomes the value under k; no other key changes)',
+    'NOT covered: canonicalize, recompute_model_indices, the rule functions, iter_*; model-scoped (_own/_all) indices (close/close_until: return-value contract only, unit GEN-close)',
     'part GEN-move (C04): move_new_to_old is proved against an ASSUMED contract of PrefixTreeN::iter (obeys the iterator laws; yields exactly the tuples of the view), which is an iterator-adapter chain outside Verus and is bounded-checked by the native sweep of unit PT',
-    'part GEN-define (C05): define_<func> is proved against an ASSUMED contract of the evaluation function <func>(..) -> Option<_> (axiom_eval_<func>: Some(y) => the tuple is in the relation, None => no tuple with these arguments), whose body is outside Verus and is bounded-checked by the native harness; the newtype From/Into impls are body-less there (proved in part GEN)',
+    'the evaluation functions <func>(..) -> Option<_> (real text: closures with `?`, prefix lookups, first item of the remaining column) and define_<func> are proved against the contracts of PrefixTreeN::get (proved in unit PT) and an ASSUMED contract of PrefixTreeN::iter (obeys the iterator laws; yields exactly the tuples of the view; an adapter chain outside Verus, bounded-checked by the native sweep of unit PT)',
     'the field-naming convention of display_index_field_name (the contract generator reads names)',
     'usize is 64 bit',
 ]
@@ -74,6 +90,33 @@ ASSUMPTIONS = [
 
 def probe_files():
     return sorted(glob.glob(os.path.join(PROBES, '*.eql')))
+
+
+def ei_spec(n):
+    return """
+/// the row is listed under element e in a per-element row list
+pub open spec fn ei_has%(n)d(m: &BTreeMap<u32, Vec<[u32; %(n)d]>>, e: u32, row: Seq<u32>) -> bool {
+    bt_view(m).contains_key(e) && exists|j: int| 0 <= j < bt_view(m)[e]@.len() && (#[trigger] bt_view(m)[e]@[j])@ == row
+}
+/// `m.entry(k).or_default().push(x)`: x is listed under k afterwards and nothing that was listed is lost
+pub proof fn lemma_ei_push%(n)d(m0: &BTreeMap<u32, Vec<[u32; %(n)d]>>, m1: &BTreeMap<u32, Vec<[u32; %(n)d]>>, k: u32, x: [u32; %(n)d])
+    requires
+        bt_view(m1) == bt_view(m0).insert(k, bt_view(m1)[k]),
+        bt_view(m0).contains_key(k) ==> bt_view(m1)[k]@ == bt_view(m0)[k]@.push(x),
+        bt_view(m1)[k]@.len() > 0 && bt_view(m1)[k]@.last() == x,
+    ensures
+        ei_has%(n)d(m1, k, x@),
+        forall|e: u32, row: Seq<u32>| ei_has%(n)d(m0, e, row) ==> ei_has%(n)d(m1, e, row),
+{
+    let l = bt_view(m1)[k]@;
+    assert(l[l.len() - 1]@ == x@);
+    assert forall|e: u32, row: Seq<u32>| ei_has%(n)d(m0, e, row) implies ei_has%(n)d(m1, e, row) by {
+        let j = choose|j: int| 0 <= j < bt_view(m0)[e]@.len() && (#[trigger] bt_view(m0)[e]@[j])@ == row;
+        if e == k { assert(bt_view(m1)[e]@[j] == bt_view(m0)[e]@[j]); } else { assert(bt_view(m1)[e] == bt_view(m0)[e]); }
+        assert(bt_view(m1)[e]@[j]@ == row);
+    }
+}
+""" % {'n': n}
 
 
 def type_spec_impls(T):
@@ -106,6 +149,7 @@ class Funcs:
         self.names = []
         self.decls = []
         self.skipped = []
+        self.eval_names = []
 
     def fn(self, name):
         it = self.m.src.fn(name, within=self.m.impl, name='%s::%s::%s' % (self.m.name.lower(), self.m.name, name))
@@ -249,6 +293,7 @@ class Funcs:
                         fh.append('    assert(self.%(f)s@ =~= ISet::new(|s: Seq<u32>| s.len() == %(m)d && self.t_%(r)s_new().contains(%(cO)s)));' % {'f': c.field, 'm': mN, 'r': r, 'cO': G.seq_lit(['s[%d]' % a for a in aN])})
                 fh.append('    assert forall|t: Seq<u32>| #[trigger] self.t_%(r)s().contains(t) implies t.len() == %(n)d%(b)s by { assert(old(self).t_%(r)s().contains(t)); }'
                           % {'r': r, 'n': n, 'b': ''.join(' && t[%d] < self.n_%s()' % (i, m.rel_types[r][i]) for i in range(n))})
+                fh += ['    ' + x for x in self.ei_same(r)]
             elif ts:
                 t = ts[0]
                 oldf = m.typesets[t].get('old')
@@ -360,6 +405,52 @@ class Funcs:
         assert forall|i: u32| #[trigger] self.in_ts_%(t)s(i) <==> self.is_root_%(t)s(i) by { assert(old(self).in_ts_%(t)s(i) <==> old(self).is_root_%(t)s(i)); }
     }'''.replace('SAME', self.same_hints()) % {'t': t})
 
+    # ------------------------------------------------------------------------------------------------
+    # evaluation function `f(args) -> Option<T>`: the real emitted text (closures with `?`), against the relation-level meaning
+    def eval_fn(self, r, k, rt, meaning):
+        m = self.m
+        n = k + 1
+        tys = m.rel_types[r]
+        it = self.fn(r)
+        body = it.orig
+        fields = re.findall(r'let set = \(&self\.(\w+)\);', body)
+        if not fields or len(re.findall(r'move \|\| -> Option<u32>', body)) != len(fields):
+            raise LostAnchor(it.name, 'evaluation function: closure shape not recognised', True)
+        args = ['arg%d.0' % i for i in range(k)]
+        pre = ['self.inv()'] + ['arg%d.0 < self.n_%s()' % (i, tys[i]) for i in range(k)]
+        self.emit(it, ('res', 'requires %s,\n        ensures %s,' % (', '.join(pre), meaning)), '\n'.join('let ghost arg%d__0 = arg%d;' % (i, i) for i in range(k)))
+        # after `argI = self.root_<t>(argI);` the local holds the representative the contract speaks about
+        for i in range(k):
+            it.after('arg%d = self.root_%s(arg%d);' % (i, tys[i], i), 'proof { assert(arg%d == self.root_%s_spec(arg%d__0)); }' % (i, tys[i], i))
+        for i, f in enumerate(fields, start=1):
+            c = [c for c in m.copies if c.field == f]
+            if not c or c[0].eqs is not None or c[0].order != list(range(n)) or c[0] is not m.primary(r, c[0].age):
+                raise G.Unsupported('evaluation function %s reads %s, which is not an identity-ordered primary copy' % (r, f))
+            sy = G.seq_lit(args + ['y'])
+            it.closure('move || -> Option<u32>', 'move || -> (cr: Option<u32>)',
+                       """requires self.%(f)s.wf(),
+            ensures match cr { Some(y) => self.%(f)s@.contains(%(sy)s), None => forall|y: u32| !self.%(f)s@.contains(#[trigger] %(sy)s) },""" % {'f': f, 'sy': sy}, occ=i)
+            # tuples as nested conses: tupN(a0, .., y) == cons(a0, tup(N-1)(a1, .., y)), level by level
+            hint = ['proof {']
+            for j in range(k):
+                hint.append('    assert forall|y: u32| #[trigger] %s == cons(%s, %s) by { assert(%s =~= cons(%s, %s)); }'
+                            % (G.seq_lit(args[j:] + ['y']), args[j], G.seq_lit(args[j + 1:] + ['y']), G.seq_lit(args[j:] + ['y']), args[j], G.seq_lit(args[j + 1:] + ['y'])))
+            hint.append('}')
+            it.before('#[allow(unused_parens)]\n    let set = (&self.%s);' % f, '\n'.join(hint))
+            # after the j-th prefix lookup: membership in the field == membership of the remaining columns in the subtree at hand
+            for j in range(k):
+                it.after('let set = set.get(arg%d.0)?;' % j, 'proof { assert forall|y: u32| #[trigger] self.%s@.contains(%s) == set@.contains(%s) by { } }'
+                         % (f, G.seq_lit(args + ['y']), G.seq_lit(args[j + 1:] + ['y'])), occ=i)
+            it.let_array_pattern(i, var='p%d__' % i)
+            it.after('let [result] = set.iter().next()?;', 'proof { assert(p%d__@ =~= tup1(result)); assert(set@.contains(p%d__@)); }' % (i, i), occ=i)
+        self.eval_names.append(it.name)
+        it.closure('|x|', '|x: u32| -> (cr: %s)' % m.rels[r][k], 'ensures cr.0 == x,')
+        # the two primary copies ARE the abstract relation (identity order); components are existing elements by inv
+        it.tail("""proof {
+            match r__ { Some(y) => { assert(self.t_%(r)s().contains(%(sy)s)); }, None => {} }
+        }""" % {'r': r, 'sy': G.seq_lit(args + ['y.0'])})
+        return it
+
     def same_hints(self, except_type=None):
         m = self.m
         out = []
@@ -371,6 +462,7 @@ class Funcs:
             out.append('assert(self.t_%s_new() == old(self).t_%s_new() && self.t_%s_old() == old(self).t_%s_old());' % (r, r, r, r))
             out.append('assert forall|t: Seq<u32>| #[trigger] self.t_%s().contains(t) implies t.len() == %d%s by { assert(old(self).t_%s().contains(t)); }'
                        % (r, n, ''.join(' && t[%d] < self.n_%s()' % (i, m.rel_types[r][i]) for i in range(n)), r))
+            out += self.ei_same(r)
         return '\n        '.join(out)
 
     def frame_hints(self, except_rel):
@@ -385,7 +477,19 @@ class Funcs:
             out.append('assert(self.t_%s_new() == old(self).t_%s_new() && self.t_%s_old() == old(self).t_%s_old());' % (r, r, r, r))
             out.append('assert forall|t: Seq<u32>| #[trigger] self.t_%s().contains(t) implies t.len() == %d%s by { assert(old(self).t_%s().contains(t)); }'
                        % (r, n, ''.join(' && t[%d] < self.n_%s()' % (i, m.rel_types[r][i]) for i in range(n)), r))
+            out += self.ei_same(r)
         return '\n    '.join(out)
+
+    def ei_same(self, r):
+        """relation r and its per-element row lists are untouched: the element-index conjunct of inv carries over"""
+        m = self.m
+        n = len(m.rels[r])
+        out = []
+        for ty, f, positions in m.element_indices(r):
+            conj = ' && '.join('ei_has%d(&self.%s, row[%d], row)' % (n, f, i) for i in positions)
+            out.append('assert forall|row: Seq<u32>| #[trigger] self.t_%s().contains(row) implies %s by { assert(old(self).t_%s().contains(row)); %s }'
+                       % (r, conj, r, ' '.join('assert(ei_has%d(&old(self).%s, row[%d], row));' % (n, f, i) for i in positions)))
+        return out
 
     def new_internal_hints(self, t):
         m = self.m
@@ -441,25 +545,9 @@ class Funcs:
             k = n - 1
             rt = tys[k]
             aroots = ['self.root_%s_spec(arg%d).0' % (tys[i], i) for i in range(k)]
-            ev = self.m.src.fn(r, within=m.impl, name='%s::%s::%s' % (m.name.lower(), m.name, r))
-            # The contract is attached through an uninterpreted predicate + an (assumed) lemma: in Verus 0.2026.09.13 a body-less declaration whose
-            # clauses mention the model's spec functions made the unrelated obligations of the newtype's `From`/`Into` impls unprovable.
-            argdecl = ', '.join('arg%d: %s' % (i, m.rels[r][i]) for i in range(k))
-            argl = ', '.join('arg%d' % i for i in range(k))
             meaning = 'match res { Some(y) => y.0 < self.n_%s() && self.t_%s().contains(%s), None => forall|y: u32| !self.t_%s().contains(%s) }' % (
                 rt, r, G.seq_lit(aroots + ['y.0']), r, G.seq_lit(aroots + ['y']))
-            self.decls.append('''    pub uninterp spec fn eval_ok_%(r)s(&self, %(argdecl)s%(c)sres: Option<%(T)s>) -> bool;
-    /// ASSUMED contract of the evaluation function `%(r)s` (its body -- closures with `?` over opaque iterators -- is outside Verus; bounded-checked by the native harness)
-    #[verifier::external_body]
-    pub proof fn axiom_eval_%(r)s(&self, %(argdecl)s%(c)sres: Option<%(T)s>)
-        requires self.eval_ok_%(r)s(%(argl)s%(c)sres), self.inv()%(rng)s
-        ensures %(meaning)s
-    {}
-''' % {'r': r, 'argdecl': argdecl, 'argl': argl, 'c': ', ' if k else '', 'T': m.rels[r][k], 'meaning': meaning,
-                  'rng': ''.join(', arg%d.0 < self.n_%s()' % (i, tys[i]) for i in range(k))})
-            spec = 'ensures self.eval_ok_%s(%s%sres),' % (r, argl, ', ' if k else '')
-            from units.wbapi import declaration
-            self.decls.append(declaration(ev, 'res', spec))
+            self.eval_fn(r, k, rt, meaning)
             if ('pub fn define_%s(' % r) in m.impl.orig:
                 oroots = ['old(self).root_%s_spec(el%d).0' % (tys[i], i) for i in range(k)]
                 fr_same = ['final(self).t_%s_new() == old(self).t_%s_new()' % (r, r), 'final(self).n_%s() == old(self).n_%s()' % (rt, rt)]
@@ -479,8 +567,7 @@ class Funcs:
                 pre = ['old(self).inv()', 'old(self).n_%s() + 1 < u32::MAX' % rt] + ['el%d.0 < old(self).n_%s()' % (i, tys[i]) for i in range(k)]
                 els_l = ', '.join('el%d' % i for i in range(k))
                 self.emit(self.fn('define_%s' % r), ('res', 'requires %s,\n        ensures %s,' % (', '.join(pre), ',\n            '.join(post))),
-                          'proof { assert forall|res: Option<%s>| #[trigger] self.eval_ok_%s(%s%sres) implies (%s) by { self.axiom_eval_%s(%s%sres); } }'
-                          % (m.rels[r][k], r, els_l, ', ' if k else '', meaning.replace('arg', 'el'), r, els_l, ', ' if k else ''))
+                          '')
         # ---- insert
         els = ['old(self).root_%s_spec(el%d).0' % (tys[i], i) for i in range(n)]
         post = ['final(self).inv()', 'final(self).t_%s() =~= old(self).t_%s().insert(%s)' % (r, r, G.seq_lit(els)),
@@ -541,6 +628,20 @@ class Funcs:
                      % (mmap, r, G.seq_lit(['s[%d]' % x for x in a]), r, G.seq_lit(['s[%d]' % x for x in a]), s0, cond))
             h.append('        let t = %s; assert(t == t0); %s assert(s =~= %s);' % (G.seq_lit(['s[%d]' % x for x in a]), ' '.join('assert(t[%d] == t0[%d]);' % (i, i) for i in range(n)), s0))
             h.append('    }')
+        # (3) element index: every push is bracketed by a snapshot and the push lemma; at the end every row of the relation is listed
+        #     under each of its components (old rows: lists only grow; the new row: pushed under el_i unless an earlier column of the
+        #     same type holds the same element)
+        for ty, f, positions in m.element_indices(r):
+            for i in positions:
+                stmt = 'self.%s.entry(el%d).or_default().push([%s]);' % (f, i, ', '.join(names))
+                it.before(stmt, 'let ghost ei_%d_%s = self.%s;' % (i, f, f))
+                it.after(stmt, 'proof { lemma_ei_push%d(&ei_%d_%s, &self.%s, el%d, [%s]); }' % (n, i, f, f, i, ', '.join(names)))
+            conj = ' && '.join('ei_has%d(&self.%s, row[%d], row)' % (n, f, i) for i in positions)
+            h.append('    assert forall|row: Seq<u32>| #[trigger] self.t_%s().contains(row) implies %s by {' % (r, conj))
+            h.append('        if old(self).t_%s().contains(row) { %s } else { assert(row == t0); }'
+                     % (r, ' '.join('assert(ei_has%d(&old(self).%s, row[%d], row));' % (n, f, i) for i in positions)))
+            h.append('    }')
+        h.append('    assert forall|t: Seq<u32>| !(#[trigger] self.t_%s_new().contains(t) && self.t_%s_old().contains(t)) by { if t != t0 { assert(old(self).t_%s_new().contains(t) == self.t_%s_new().contains(t)); } }' % (r, r, r, r))
         h.append('}')
         it.at_end('\n'.join(h))
 
@@ -553,8 +654,12 @@ def build(repo, canary=False, probes=None, part='main'):
     uf.declarations(A, repo)
     models = [G.Model(out[k]) for k in sorted(out)]
     ar = sorted(set(a for m in models for a in m.tree_arities()))
-    pt.declarations(A, repo, ar, with_iter=(part == 'move'))
+    if part in ('define', 'main'):
+        ar = sorted(set(ar) | set(range(1, max(ar) + 1)))      # get() hands out subtrees of every smaller arity
+    pt.declarations(A, repo, ar, with_iter=True, with_get=(part in ('define', 'main')))
     A.spec(os.path.join(HERE, '..', 'spec', 'gen.rs'))
+    for nn in sorted(set(len(m.rels[r]) for m in models for r in m.rels if m.element_indices(r))):
+        A.text(ei_spec(nn), 'element index vocabulary for rows of %d columns' % nn)
     seen_types = set()
     A.exec_names = []
     for m in models:
@@ -579,14 +684,14 @@ def build(repo, canary=False, probes=None, part='main'):
         A.item(m.struct)
         A.text(m.impl.header(), 'impl header of the model (from the emitted text)')
         A.text(G.ghost_impl(m), 'GENERATED ghost accessors and representation invariant')
-        fs = Funcs(m, canary, with_define=(part == 'define'), with_move=(part == 'move'))
+        fs = Funcs(m, canary, with_define=(part in ('define', 'main')), with_move=(part == 'move'))
         its = fs.all()
         for d in fs.decls:
             A.text(d, 'evaluation function declared by contract only (assumption; bounded-checked by the native harness)')
         for it in its:
             A.item(it)
         A.skipped = getattr(A, 'skipped', []) + fs.skipped
-        A.exec_names += [x for x in fs.names if part == 'main' or (part == 'define' and '::define_' in x) or (part == 'move' and x.endswith('::move_new_to_old'))]
+        A.exec_names += [x for x in fs.names if part == 'main' or (part == 'define' and ('::define_' in x or x in fs.eval_names)) or (part == 'move' and x.endswith('::move_new_to_old'))]
         A.text('}\n}\n', 'impl / module close')
     A.text('} // verus!\nfn main() {}\n', 'footer')
     return A
